@@ -5,6 +5,7 @@ from __future__ import annotations
 import faulthandler
 import importlib
 import json
+import os
 import sys
 import time
 
@@ -32,6 +33,13 @@ def main(argv):
     res.deadline = time.monotonic() + float(spec.get("budget_s", 1e9))
     res.expired = lambda: time.monotonic() > res.deadline
     probe = CovProbe()
+    argcov = None
+    if os.environ.get("VMON_ARGCOV"):
+        from . import REPO
+        from .argcov import ArgCov
+
+        argcov = ArgCov(os.path.join(os.path.realpath(REPO), "nutree") + os.sep)
+        argcov.start()
     if spec.get("cov", True):
         probe.start()
     t0 = time.monotonic()
@@ -46,6 +54,8 @@ def main(argv):
         res.inconc(f"shard {spec.get('name')}: harness error: {short_tb()}")
     finally:
         probe.stop()
+        if argcov is not None:
+            argcov.stop(os.environ["VMON_ARGCOV"])
     res.wall = time.monotonic() - t0
     res.lines = probe.lines()
     with open(outfile, "w") as fp:
